@@ -30,8 +30,11 @@ TV = [
     ("xs:yearMonthDuration('P1Y')", 'AOrd 4 12', 'ym'), ("xs:yearMonthDuration('P12M')", 'AOrd 4 12', 'ym'), ("xs:yearMonthDuration('P1M')", 'AOrd 4 1', 'ym'),
     ("xs:dayTimeDuration('PT1H')", 'AOrd 5 3600000', 'dtd'), ("xs:dayTimeDuration('PT60M')", 'AOrd 5 3600000', 'dtd'),
     ("xs:dayTimeDuration('P1D')", 'AOrd 5 86400000', 'dtd'),
-    ("xs:QName('a')", 'AEq 1 1', 'o'), ("xs:QName('b')", 'AEq 1 2', 'o'), ("xs:hexBinary('0A')", 'AEq 2 10', 'o'),
-    ("xs:base64Binary('Cg==')", 'AEq 3 10', 'o'), ("xs:gYear('2000')", 'AEq 4 2000', 'o'), ("xs:duration('P1Y1D')", 'AEq 5 1', 'o'),
+    # XPath 3.1 orders the binary types (op:hexBinary-less-than ...): families 6 / 7 ordered by the octets
+    ("xs:hexBinary('0A')", 'AOrd 6 10', 'hex'), ("xs:hexBinary('0B')", 'AOrd 6 11', 'hex'), ("xs:hexBinary('0a')", 'AOrd 6 10', 'hex'),
+    ("xs:base64Binary('Cg==')", 'AOrd 7 10', 'b64'), ("xs:base64Binary('Cw==')", 'AOrd 7 11', 'b64'),
+    ("xs:QName('a')", 'AEq 1 1', 'o'), ("xs:QName('b')", 'AEq 1 2', 'o'), ("xs:gYear('2000')", 'AEq 4 2000', 'o'),
+    ("xs:gYear('2001')", 'AEq 4 2001', 'o'), ("xs:duration('P1Y1D')", 'AEq 5 1', 'o'),
 ]
 ERRC = {'FORG0001': 1, 'FORG0006': 6}
 
@@ -100,6 +103,10 @@ def run(chk, model_ok):
         """impl result vs model result; decimal division is compared to 27 significant digits (Decimal context, external)"""
         if a == b:
             return True
+        if b == [-1, 16] and a in ([-1, 1], [-1, 6]):
+            return True               # both error conditions hold: either code
+        if len(a) == 4 and len(b) == 4 and a[0] == b[0] == 1 and a[1] == 0 and b[1] == 1 and a[2:] == b[2:]:
+            return True               # an integral xs:decimal returned as xs:integer (a subtype of xs:decimal)
         if len(a) == 4 and len(b) == 4 and a[:3] == b[:3] and a[0] == 1 and a[2] == 0:
             x, y = a[3], b[3]
             if a[1] in (2, 3):
@@ -110,10 +117,10 @@ def run(chk, model_ok):
     def seq():
         r = rng.random()
         if r < 0.55:
-            g = rng.choice(['n', 'n', 'n', 's', 'b', 'd', 'dt', 't', 'ym', 'dtd'])
+            g = rng.choice(['n', 'n', 'n', 's', 'b', 'd', 'dt', 't', 'ym', 'dtd', 'hex', 'b64'])
             pool = [t for t in TV if t[2] == g]
         elif r < 0.75:
-            g = rng.sample(['n', 's', 'b', 'd', 'ym', 'dtd', 'o'], 2)
+            g = rng.sample(['n', 's', 'b', 'd', 'ym', 'dtd', 'o', 'hex', 'b64'], 2)
             pool = [t for t in TV if t[2] in g]
         else:
             pool = TV
@@ -135,7 +142,7 @@ def run(chk, model_ok):
         for b in TV:
             cases.append(('dv', [a, b], None))
             cases.append(('index', [a], b))
-    for g in ('n', 's', 'b', 'd', 'dt', 't', 'ym', 'dtd', 'o'):
+    for g in ('n', 's', 'b', 'd', 'dt', 't', 'ym', 'dtd', 'o', 'hex', 'b64'):
         for a in [t for t in TV if t[2] == g]:
             for f in range(4):
                 cases.append(('agg', [a], f))
@@ -176,7 +183,7 @@ def run(chk, model_ok):
         if mo is None:
             continue
         if kind == 'dv':
-            reps, class_of = [dec_model(m) for m in mo[0][0]], list(mo[0][1])
+            reps, class_of = [dec_model(m) for m in mo[0]], list(mo[1])     # Coq prints ((a, b), c) as (a, b, c)
             if err is not None:
                 chk.corr_fail.append((desc, 'error ' + err, 'values'))
                 chk.violation('impl-vs-spec', desc, {'impl': 'error ' + err, 'spec': 'no error'})
@@ -194,7 +201,7 @@ def run(chk, model_ok):
             if len(reps) >= 2:
                 chk.nontrivial.add(repr(('dv', desc['S'])))
         elif kind == 'index':
-            want = list(mo[1])
+            want = list(mo[2])
             got = ['error ' + err] if err else [int(v) for v in r]
             if got != want:
                 chk.corr_fail.append((desc, got, want))
@@ -202,7 +209,9 @@ def run(chk, model_ok):
             if want:
                 chk.nontrivial.add(repr(('index', desc['S'], x[0])))
         else:
-            want = dec_model(mo[1])
+            want = dec_model(mo[2])
+            if x == 3 and s and all(t[2] == 'dtd' for t in s) and sum(int(t[1].split()[2]) for t in s) % len(s):
+                continue              # dayTimeDuration div n with a fractional millisecond result: not judged
             if err is not None:
                 got = [-1, ERRC.get(err, err)]
             elif not r:
